@@ -1,7 +1,7 @@
 """C15 - liquid-liquid and solid-liquid splits meet their equilibrium and labelling rules."""
 import random
 
-from harness import core, par, tlc
+from harness import core, par, replayjob, tlc
 from harness.drivers import liquideq as dl
 
 ASSUME = [
@@ -165,12 +165,16 @@ def run(ctx):
     if dev_trace:
         chosen.append(max(dev_trace, key=len))
     jobs = [('W%d' % k, p, 'pseudo equilibrium' if k % 10 else 'shgo', 'none' if k % 3 else 'Water') for k, p in enumerate(chosen)]
+    job_of = {j[0]: ('schedule_trace', list(j)) for j in jobs}
     traces = [t for t in par.pmap(schedule_trace, jobs) if t]
     n_sched = len(traces)
     methods = ['pseudo equilibrium', 'shgo', 'pseudo equilibrium', 'differential evolution']
     jobs = [('%d:L%d' % (ctx.seed, k), 'L%d' % k, methods[k % 4] if not quick or k % 20 == 3 else methods[1 if k % 5 == 0 else 0]) for k in range(40 if quick else 2500)]
+    job_of.update({j[1]: ('random_lle_trace', list(j)) for j in jobs})
     traces += par.pmap(random_lle_trace, jobs)
-    traces += par.pmap(sle_trace, [('%d:S%d' % (ctx.seed, k), 'S%d' % k) for k in range(150 if quick else 4000)])
+    jobs = [('%d:S%d' % (ctx.seed, k), 'S%d' % k) for k in range(150 if quick else 4000)]
+    job_of.update({j[1]: ('sle_trace', list(j)) for j in jobs})
+    traces += par.pmap(sle_trace, jobs)
     # remember the method in the observation (for violation keys)
     defs, cfgc = dl.tla_constants()
     stats = dict(ok=0, ops={})
@@ -192,7 +196,7 @@ def run(ctx):
             if x['code'] == 'rejected':
                 s = t['steps'][x['l'] - 1]
                 ctx.violation(key_of(s, x['clause']), '%s %r: %s obs=%r' % (s['op'], s['a'], x['clause'], s['obs']),
-                              dict(kind='note', detail='re-run the check with the same seed', op=s['op'], a=s['a'], clause=x['clause']))
+                              dict(kind='job', func=job_of[t['id'].rstrip('c')][0], args=job_of[t['id'].rstrip('c')][1], trace=t['id'], clause=x['clause']))
                 if t['steps'][x['l']:]:
                     nxt.append(dict(id=t['id'] + 'c', mode='seq', init=s['post'], steps=t['steps'][x['l']:]))
         todo = nxt
@@ -211,6 +215,4 @@ def run(ctx):
 
 
 def replay(ctx, data):
-    print('# C15 violations: re-run ./check C15 with the recorded seed')
-    print(data.get('what', ''))
-    return 1
+    return replayjob.run('C15', data, dict(schedule_trace=schedule_trace, random_lle_trace=random_lle_trace, sle_trace=sle_trace), 'LiquidEq', dl.tla_constants())
